@@ -233,6 +233,28 @@ func init() {
 		}),
 		// reflect.TypeOf: the dynamic type as an interface value wrapping its name; equality of two
 		// results is type identity, String() is the name
+		// sort.Ints / sort.Slice-free integer sorts: a compare-exchange network over the elements
+		"sort.Ints": func(e *Engine, s *State, f *Frame, x ssa.Value, sf *ssa.Function, a []Value, at ssa.Instruction) ([]*State, bool) {
+			sl := a[0].(Sl)
+			if sl.Nil || sl.Len < 2 {
+				return nil, false
+			}
+			if sl.SymLen != nil {
+				panic(engErr("sort.Ints of a slice with symbolic length"))
+			}
+			ar := s.Objs[sl.Obj].(Ar)
+			na := Ar{append([]Value(nil), ar.E...)}
+			n := sl.Len
+			for i := 0; i < n; i++ {
+				for j := 0; j+1 < n-i; j++ {
+					p, q := na.E[sl.Off+j].(Sc).T, na.E[sl.Off+j+1].(Sc).T
+					c := Slt(q, p)
+					na.E[sl.Off+j], na.E[sl.Off+j+1] = Sc{Ite(c, q, p)}, Sc{Ite(c, p, q)}
+				}
+			}
+			s.Objs[sl.Obj] = na
+			return nil, false
+		},
 		"reflect.TypeOf": simple(func(e *Engine, s *State, a []Value, at ssa.Instruction, _ *ssa.Function) Value {
 			i, ok := a[0].(If)
 			if !ok || i.T == nil {
